@@ -60,6 +60,8 @@ class BuiltinMixin(object):
     impl = getattr(self, 'x_' + dotted.replace('.', '_'), None)
     if impl is not None:
       return VBuiltin(dotted, lambda ex, st, a, k, _i=impl: _i(st, a, k))
+    if dotted == 'os.linesep':
+      return VStr('\n')
     if dotted in ('numbers.Number', 'numbers.Integral', 'numbers.Real', 'collections.abc.Iterable', 'collections.abc.Mapping',
                   'collections.abc.Callable', 'collections.abc.Sequence', 'struct.error', 'queue.Empty', 'yaml.YAMLError',
                   'libusb1.USBError'):
@@ -110,7 +112,14 @@ class BuiltinMixin(object):
         return [(st, VBool(z3.simplify(t)))]
     for s, v in self.resolve(st, args[0]):
       tgt = args[1]
-      if isinstance(tgt, VTypeSym):
+      if isinstance(tgt, VVal) and s.tags.get(tgt.t.get_id()) in ('type', ('type',)):
+        tgt = VTypeSym(Val.t(tgt.t))
+      if isinstance(tgt, VTypeSym) and self.ctx.opts.get('symbolic_types'):
+        # arbitrary class object (e.g. a user exception class): an uninterpreted subclass relation on type ids
+        tid = st.classof(v.t) if isinstance(v, VRef) else z3.IntVal(-1)
+        rel = z3.Function('is_subclass_id', z3.IntSort(), z3.IntSort(), z3.BoolSort())
+        out.append((s, VBool(rel(tid, tgt.t))))
+      elif isinstance(tgt, VTypeSym):
         for s2, t2 in self.resolve_type(s, tgt):
           out.append((s2, VBool(self.isinstance_term(s2, v, t2))))
       elif isinstance(tgt, VVal):
@@ -532,6 +541,8 @@ class BuiltinMixin(object):
 
   def b_cast(self, st, args, kwargs):
     obj, cls = args
+    if isinstance(obj, VVal):
+      return [(st, VRef(cls.cls, Val.r(obj.t)))]
     return [(st, VRef(cls.cls, obj.t, nullable=obj.nullable, exact=obj.exact, elem=obj.elem))]
 
   def b_pattern_of(self, st, args, kwargs):
@@ -1030,6 +1041,9 @@ class BuiltinMixin(object):
 
   def x_traceback_format_exc(self, st, args, kwargs):
     return [(st, VStr(fresh('tb', z3.StringSort())))]
+
+  def x_traceback_format_exception(self, st, args, kwargs):
+    return [(st, VTuple([VStr(fresh('tb', z3.StringSort()))]))]
 
   def x_logging_getLogger(self, st, args, kwargs):
     return [(st, VRef('logger', 2))]
